@@ -5,7 +5,7 @@
 (* action binds the logged fields and evaluates the property rules of       *)
 (* DESIGN.md Appendix B against the Ref layer.                              *)
 (***************************************************************************)
-EXTENDS TraceBase, Header, Codes, NameWire
+EXTENDS TraceBase, Header, Codes, NameWire, NameText
 
 VARIABLES l          \* index of the next event to consume
 vars == <<l>>
@@ -134,6 +134,33 @@ TraceNameDecode ==
                <<"at", Ev.at[i], "got", Ev.r[i][1], "ref", RefDecodeName(Ev.b, Ev.at[i]).why>>)
 
 -----------------------------------------------------------------------------
+(* C17: Name::new on text e.s (code points).                                  *)
+(* e.out = <<"ok", labels, display code points, recreated-equal>> | <<"err">> *)
+TraceNameNew ==
+  /\ Ev.ev = "NameNew"
+  /\ Rule(l, "NoPanic", Ev.out[1] # "panic", <<"Name::new", Ev.s>>)
+  /\ Rule(l, "NameGrammar", (Ev.out[1] = "ok") = TextAccept(Ev.s), <<"accept", Ev.s, Ev.out[1]>>)
+  /\ Rule(l, "NameGrammar", Ev.out[1] = "ok" => Ev.out[2] = SplitLabels(Ev.s), <<"labels", Ev.s>>)
+  /\ Rule(l, "NameDisplay",
+          Ev.out[1] = "ok" => (Ev.out[3] = DisplayText(SplitLabels(Ev.s)) /\ Ev.out[4] = TRUE),
+          <<"display", Ev.s, Ev.out>>)
+
+(* Label::new on bytes e.b: e.ok *)
+TraceLabelNew ==
+  /\ Ev.ev = "LabelNew"
+  /\ Rule(l, "NameGrammar", Ev.ok = TextLabelOK(Ev.b), <<"label", Ev.b, Ev.ok>>)
+
+(* relations between two names given as label sequences *)
+TraceNameRel ==
+  /\ Ev.ev = "NameRel"
+  /\ Rule(l, "SuffixAlgebra", Ev.sub = IsSubdomainOf(Ev.x, Ev.y), <<"is_subdomain_of", Ev.x, Ev.y, Ev.sub>>)
+  /\ Rule(l, "SuffixAlgebra",
+          IF IsSubdomainOf(Ev.x, Ev.y) THEN Ev.without = <<"some", Without(Ev.x, Ev.y)>>
+          ELSE Ev.without = <<"none">>,
+          <<"without", Ev.x, Ev.y, Ev.without>>)
+  /\ Rule(l, "SuffixAlgebra", Ev.ll = IsLinkLocal(Ev.x), <<"is_link_local", Ev.x, Ev.ll>>)
+
+-----------------------------------------------------------------------------
 Init == l = 1
 
 Next == /\ l <= Len(Rec)
@@ -142,6 +169,7 @@ Next == /\ l <= Len(Rec)
            \/ TraceHdrBuilds
            \/ TraceFlagOps
            \/ TraceNameDecode
+           \/ TraceNameNew \/ TraceLabelNew \/ TraceNameRel
            \/ TraceCodeConv \/ TraceMnemonics \/ TraceMatchType \/ TraceMatchClass
 
 Spec == Init /\ [][Next]_vars
